@@ -58,6 +58,9 @@ def run(run, pid):
             raise MachineryDefect("parser_map has no entry for %s" % e)
         if m.spec.missing_keywords:
             raise MachineryDefect("keywords of the specification missing from the code alphabet: %s" % sorted(m.spec.missing_keywords))
+        if pid == "C01":
+            for dname, dtext in getattr(M, "DRIVERS", {}).items():
+                m.add_driver(getattr(P, dname), dtext)
         for key, err in m.errors.items():
             q = "Parser.%s%s" % (m.key_text(key), tag)
             cov["degraded_functions"].append({"function": q, "reason": "extraction failed: %s" % err})
@@ -68,6 +71,8 @@ def run(run, pid):
             anchors = m.anchors()
             entries = {("parse_document", ()): {()}, ("parse_value_literal", (False,)): {("EOF",)}, ("parse_type_reference", ()): {("EOF",)}}
             entries = {k: v for k, v in entries.items() if k in m.auts}
+            for dk in [k for k in m.auts if k[0].endswith("@module")]:
+                entries[dk] = {()}
             pr = PR.Predict(m, anchors, entries) if pid == "C01" and not m.errors else None
         except (KeyError, RecursionError, X.Unsupported) as e:
             cov["degraded_functions"].append({"function": "Parser%s" % tag, "reason": "analysis failed: %r" % (e,)})
@@ -92,10 +97,11 @@ def run(run, pid):
                     atoms = short.word([x if not isinstance(x, tuple) else x for x in r["raw_word"]])
                     text = W.text_of(atoms)
                     got = W.run_method(P, key[0], key[1], flags, text)
-                    want = W.oracle(M.spec_text(key[0], key[1], flags), flags, text)
+                    spec_of = m._driver_spec[key] if key in getattr(m, "_driver_spec", {}) else M.spec_text(key[0], key[1], flags)
+                    want = W.oracle(spec_of, flags, text)
                     replayed = want is not None and ((got[0] == "accept") != bool(want) or got[0] == "crash")
                     ok &= ob(q + ":P1", False, "%s and the specification's %s differ: the symbol word [%s] is accepted by %s; concrete input %r: method %s, grammar %s" % (
-                        m.key_text(key), M.spec_text(key[0], key[1], flags), " ".join(r["word"]), r["accepted_by"], text, got,
+                        m.key_text(key), spec_of, " ".join(r["word"]), r["accepted_by"], text, got,
                         "derives it" if want else "does not derive it"),
                         {"method": key[0], "args": list(key[1]), "flags": flags, "word": r["word"], "text": text, "method_verdict": list(got), "grammar_derives": want}, replayed)
                 else:
@@ -130,7 +136,7 @@ def run(run, pid):
                     seen_shape.add(sid)
                     ok &= ob(sid, o["holds"], "%s: %s" % (key[0], o["detail"]), {"method": key[0], "detail": o["detail"]})
             if pid == "C02":
-                for o in SH.p5(aut, M.NODES.get(key[0], ()), AST):
+                for o in SH.p5(aut, M.NODES.get(key[0], ()), AST, M.ORDER):
                     sid = "Parser.%s:P5:%s" % (m.key_text(key), o["id"])
                     if sid in seen_shape:
                         continue
